@@ -58,6 +58,8 @@ def renyi_entropy(dist, order, rvs=None, rv_mode=None):
         dist = dist.marginal(rvs, rv_mode)
 
     pmf = dist.pmf
+    # Outcomes of zero probability are not part of the support.
+    pmf = pmf[pmf > 0]
 
     if order == 0:
         H_a = np.log2(pmf.size)
